@@ -557,7 +557,7 @@ pub fn verify<const N: usize>(m: &[u8], sig: &Signature<N>, pk: &PublicKey<N>) -
         .map(|i| (i * i))
         .sum::<i64>()
         + s2.iter().map(|&i| i as i64).map(|i| (i * i)).sum::<i64>();
-    length_squared < params.sig_bound
+    length_squared <= params.sig_bound
 }
 
 #[cfg(test)]
